@@ -104,6 +104,11 @@ def notations():
     N.append(("yyyy_mon_dd_sp", "num", 0, lambda t: '%04d %s %02d %02d:%02d:%02d %s msg' % (t["y"], MON[t["m"] - 1], t["d"], t["H"], t["M"], t["S"], offs(t["off"], True))))
     N.append(("mid_line", "num", 0, lambda t: 'kernel: something happened at %04d-%02d-%02dT%02d:%02d:%02d%s ok' % (D(t) + (offs(t["off"], True),))))
     N.append(("epoch_s", "epoch", 0, lambda t: '%d msg' % t["epoch"]))
+    # Unix-epoch values with longer fractions (strace -ttt style) and inside an audit record: absolute instants, whatever
+    # the fallback zone
+    N.append(("epoch_us", "epoch", 3, lambda t: "%d.%s000 execve(...)" % (t["epoch"], ("%09d" % t["n"])[:3])))
+    N.append(("epoch_ns", "epoch", 3, lambda t: "%d.%s000000 read(3, ...)" % (t["epoch"], ("%09d" % t["n"])[:3])))
+    N.append(("epoch_audit", "epoch", 3, lambda t: "type=SYSCALL msg=audit(%d.%s:%d): arch=c000003e syscall=59" % (t["epoch"], ("%09d" % t["n"])[:3], 1000 + t["S"])))
     # level / weekday, month-day with a dash, time, year, zone name (FedoraRemix29 hawkeye.log family)
     N.append(("hawkeye_level", "abbr", 0, lambda t: 'INFO %s-%02d %02d:%02d:%02d %04d %s something' % (MON[t["m"] - 1], t["d"], t["H"], t["M"], t["S"], t["y"], t["abbr"])))
     N.append(("hawkeye_bracket", "abbr", 0, lambda t: '[ERROR] %s-%02d %02d:%02d:%02d %04d %s something' % (MON[t["m"] - 1], t["d"], t["H"], t["M"], t["S"], t["y"], t["abbr"])))
@@ -222,7 +227,7 @@ def run(pid, tier, seed):
         # one datetime pattern is fixed per file: a file holds either no fractions at all or fractions of 1..max digits
         variants = []
         for name, zk, maxfd, render in nots:
-            if maxfd == 0 or name in ("comma_ms", "bracket", "epoch_ms"):
+            if maxfd == 0 or name in ("comma_ms", "bracket", "epoch_ms", "epoch_us", "epoch_ns", "epoch_audit"):
                 variants.append((name, zk, maxfd, render, "fixed"))
             else:
                 variants.append((name, zk, maxfd, render, "nofrac"))
